@@ -32,10 +32,10 @@ def fault_runs(ctx, thorough):
     """(callback, k) x failing file position in a 3-file run x scan/fix x continue/stop, plus parser and decode faults."""
     events = [("start", 1), ("token", 1), ("token", 3), ("line", 1), ("line", 2), ("line", 4), ("done", 1)]
     kinds = [("plugin", e, k) for e, k in events] + [("parser", None, None), ("decode", None, None)]
-    combos = [c for c in itertools.product(kinds, (0, 1, 2), ("scan", "fix"), (True, False))
+    combos = [c for c in itertools.product(kinds, (0, 1, 2), ("scan", "fix"), (True, False), ("default", "minimal"))
               if not (c[0][1] == "start" and c[2] == "fix")]   # start calls carry no file name: in fix mode (several per pass) they cannot be attributed
     if not thorough:
-        combos = docs.sample(ctx.rng, combos, 40)
+        combos = docs.sample(ctx.rng, combos, 56)
     fails, evals, samples, dist = [], 0, [], {}
     ctl = implib.probe_ctl()
     with implib.workspace() as ws:
@@ -44,7 +44,7 @@ def fault_runs(ctx, thorough):
             for name, text in (("a", CLEANISH), ("b", TOKFIX), ("v", VICTIM)):
                 alone[(mode, name)] = expected_alone(ws, text, mode)
         plug = implib.probe_plugin(os.path.join(ws, "plug"), pid="zzz997", callbacks=("start", "token", "line", "done"), fix=True, level=0)
-        for (kind, ev, k), pos, mode, cont in combos:
+        for (kind, ev, k), pos, mode, cont, scheme in combos:
             d = os.path.join(ws, "run")
             shutil.rmtree(d, ignore_errors=True)
             os.makedirs(d)
@@ -60,7 +60,7 @@ def fault_runs(ctx, thorough):
                 else:
                     implib.write(os.path.join(d, fn), texts[n])
             vname = names[pos]
-            argv = ["--add-plugin", plug] if kind == "plugin" else []
+            argv = ["--return-code-scheme", scheme] + (["--add-plugin", plug] if kind == "plugin" else [])
             if cont:
                 argv.append("--continue-on-error")
             argv += [mode] + names
@@ -88,7 +88,7 @@ def fault_runs(ctx, thorough):
             after = {fn: implib.read_bytes(os.path.join(d, fn)) for fn in names}
             evals += 1
             dist[kind] = dist.get(kind, 0) + 1
-            case = {"fault": [kind, ev, k], "victim_position": pos, "mode": mode, "continue": cont}
+            case = {"fault": [kind, ev, k], "victim_position": pos, "mode": mode, "continue": cont, "scheme": scheme}
             if not fired:
                 case["note"] = "fault did not fire (callback not reached)"
                 continue
